@@ -381,7 +381,7 @@ FAMILIES.update({
 # Edit histories: a built model is observed, edited IN PLACE through public attributes (cardinality, add / remove a
 # child, abstract flag, attribute value, remove a constraint, root operator of a constraint, rename), and observed again
 # by the same objects.  Cases are the states after >= 1 edit; `base` is the model before the first edit.
-EDIT_KINDS = {'card', 'addchild', 'rmkid', 'replkid', 'move', 'import', 'abs', 'rmctc', 'ctcop', 'rename'}
+EDIT_KINDS = {'card', 'addchild', 'rmkid', 'replkid', 'move', 'reown', 'import', 'abs', 'rmctc', 'ctcop', 'rename'}
 
 
 def edit_families(prefix, fmt='', ops=frozenset({'IMPLIES', 'OR', 'EXCLUDES', 'AND'}), abstract=True, attrs=None, star=False,
